@@ -21,9 +21,8 @@ RULE = (
     "the delimiter in a rendering) is decided by Spec.C11.inDomain. non-trivial = the sequence contains a line with "
     "fewer tokens than fields after a longer one, or a non-missing value; distinct by full case. One case in five has a "
     "delimiter made of white space only (TAB, a blank, runs and mixtures of the two), used like any other delimiter — empty "
-    "tokens at the start and in the middle of such a line keep their places — and, Spec.C11.inDomain leaving these "
-    "delimiters out, admitted when the model admits the same layout and values under a stand-in one-character delimiter "
-    "and the tokens it renders satisfy Spec.C11.tokensOk for the real one. Half of the register-file cases put the observed "
+    "tokens at the start and in the middle of such a line keep their places (Spec.C11.inDomain admits delimiters made of "
+    "TAB and blanks, so Props.C11.main_full covers them). Half of the register-file cases put the observed "
     "register class into a FAMILY: it derives from (or is the base of) another concrete delimited register class with its own LINE "
     "(one field fewer / one more, another delimiter, another identifier width, field objects shared or not); registers of the "
     "relative are read from the same file before and between the observed lines and written to the same storage before the "
@@ -32,10 +31,10 @@ RULE = (
 )
 ASSUMPTIONS = [
     "no rendering contains the delimiter as a substring (the property's wording), and the self-overlapping corner is excluded: splitting the joined tokens must give the tokens back (Spec.C11.tokensOk)",
-    "delimiters made of white space only are outside Spec.C11.inDomain (and so outside Props.C11.main_full): for them the guard is decided per case (field clauses by the model under a stand-in delimiter, the token clauses of Spec.C11.tokensOk re-stated in the harness on the model's tokens) and Spec.C11.holds is evaluated per case on model and code",
+    "delimiters made of white space only are admitted when they consist of TAB and blanks (other white space — line breaks, FF, VT, the separators 0x1c-0x1f — stays outside Spec.C11.inDomain)",
 ] + c01.ASSUMPTIONS
 TRUSTED = c01.TRUSTED
-NOT_THEOREMS = ['nothing within the domain: Props.C11.main_full is the whole of Spec.C11.holds for every layout, value list and delimiter admitted by Spec.C11.inDomain (delimiters with blanks included: the guard decides that no token contains the delimiter and that splitting the joined tokens gives them back; Props.C11.split_snoc carries that over to the written and to the padded line); the per-token law is proved for every kind (tokLaw_of_domain)', 'delimiters made of white space only (TAB, blanks): not admitted by Spec.C11.inDomain, Spec.C11.holds evaluated per case on the cycle of the model and on the observation of the code']
+NOT_THEOREMS = ['nothing within the domain: Props.C11.main_full is the whole of Spec.C11.holds for every layout, value list and delimiter admitted by Spec.C11.inDomain (delimiters with blanks included: the guard decides that no token contains the delimiter and that splitting the joined tokens gives them back; Props.C11.split_snoc carries that over to the written and to the padded line); the per-token law is proved for every kind (tokLaw_of_domain). Delimiters made of TAB and blanks only are inside the domain as well (the guard of Spec.C11.inDomain was widened; the proofs did not need it).']
 EXHAUSTIVE = {"quick": False, "thorough": False}
 DELIMS = [";", ",", "|", "\t", "::", ";;", ";", ", ", "; ", " | ", " :", "\t;"]
 # delimiters made of white space only: columns separated by TAB or by blanks
@@ -51,84 +50,8 @@ def pad_line(written, d, pads):
     return d.join(out) + "\n"
 
 
-# ------------------------------------------------------------------ delimiters made of white space only
-# Spec.C11.inDomain = non-empty delimiter, as many values as fields, NOT all white space, every (field, value) in
-# the domain of C01, Spec.C11.tokensOk.  A TAB or a blank is a delimiter like any other for the property and for
-# the model (cycle / holds are computed for every delimiter); only the guard leaves them out.  For such a delimiter
-# the remaining clauses are decided here: the field clauses by the model itself, asked about the same layout and
-# values under a one-character stand-in delimiter that occurs nowhere in the case (its reply also carries the
-# model's tokens, joined by the stand-in), the token clauses (Spec.C11.tokensOk) on those tokens.
-_WS_DOMAIN = {}
-STAND_INS = ["\x01", "\x02", "\x03", "\xa6"]
-
-
 def ws_only(d):
     return d != "" and all(c.isspace() for c in d)
-
-
-def _ws_key(case):
-    return json.dumps([case["fields"], case["values"], case["delimiter"]], sort_keys=True)
-
-
-def _stand_in(case):
-    used = set()
-    for v in case["values"]:
-        if isinstance(v, dict) and "s" in v:
-            used.update(v["s"])
-    for fd in case["fields"]:
-        used.update(fd.get("sep", []))
-        used.update(fd.get("fmt", []))
-        for f in fd.get("fmts", []):
-            used.update(f)
-    for c in STAND_INS:
-        if ord(c) not in used:
-            return c
-    return None
-
-
-def tokens_ok(ts, d):
-    """Spec.C11.tokensOk"""
-    return all(d not in t and "\n" not in t for t in ts) and "\n" not in d and (not ts or d.join(ts).split(d) == ts)
-
-
-def ws_prefetch(cases):
-    """decides the domain of all the white-space-delimited cases among `cases` with ONE call of the driver"""
-    import core
-
-    todo, seen = [], set()
-    for c in cases:
-        try:
-            if not ws_only(codec.dec_str(c["delimiter"])):
-                continue
-            k = _ws_key(c)
-        except Exception:
-            continue
-        if k in _WS_DOMAIN or k in seen:
-            continue
-        seen.add(k)
-        s = _stand_in(c)
-        if s is None or len(c["fields"]) != len(c["values"]):
-            _WS_DOMAIN[k] = False
-            continue
-        todo.append((k, c, s))
-    if not todo:
-        return
-    reqs = [{"op": "c11", "fields": c["fields"], "values": c["values"], "delimiter": codec.enc_str(s), "pads": [[0, 0]] * len(c["fields"]), "lines": []} for _, c, s in todo]
-    for (k, c, s), r in zip(todo, core.driver_batch(reqs)):
-        ok = False
-        if r.get("indomain") and r.get("padded") is not None:
-            joined = codec.dec_str(r["padded"])
-            if joined.endswith("\n"):
-                ts = joined[:-1].split(s)
-                ok = len(ts) == len(c["fields"]) and tokens_ok(ts, codec.dec_str(c["delimiter"]))
-        _WS_DOMAIN[k] = ok
-
-
-def ws_domain(case):
-    k = _ws_key(case)
-    if k not in _WS_DOMAIN:
-        ws_prefetch([case])
-    return _WS_DOMAIN.get(k, False)
 
 
 def run_impl(case):
@@ -273,9 +196,7 @@ def judge(case, obs, resp):
         return {"status": "error", "why": resp["error"]}
     if "harness_exc" in obs:
         return {"status": "error", "why": f"harness: {obs['harness_exc']} {obs.get('msg')}"}
-    indomain = resp["indomain"]
-    if not indomain and ws_only(codec.dec_str(case["delimiter"])):
-        indomain = ws_domain(case)
+    indomain = resp["indomain"]  # delimiters of TAB / blank only are inside Spec.C11.inDomain now
     if not indomain:
         return {"status": "skip", "why": "outside the domain"}
     if not resp["model_holds"]:
@@ -436,21 +357,12 @@ def cases_of(chunk):
         yield from corpus_cases()
     else:
         rng = random.Random(chunk["seed"])
-        cases = [random_case(rng) for _ in range(chunk["n"])]
-        try:
-            ws_prefetch(cases)
-        except Exception:
-            pass  # decided case by case in judge
-        yield from cases
+        for _ in range(chunk["n"]):
+            yield random_case(rng)
 
 
 def shrinks(case):
-    cands = list(_shrinks(case))
-    try:
-        ws_prefetch(cands)
-    except Exception:
-        pass
-    yield from cands
+    yield from _shrinks(case)
 
 
 def _shrinks(case):
